@@ -468,7 +468,7 @@ Proof.
     apply prog_prog0. cbn. destruct s; cbn; [exact I|apply Nat.lt_succ_diag_r].
   - intros E. rewrite E. cbn. destruct s; cbn; [exact I|apply Nat.lt_succ_diag_r].
 Qed.
-Example C08_ex_sites : (length c08_scan_sites = 40)%nat /\ Nat.leb 40 (length c08_readfrom_sites) = true /\
+Example C08_ex_sites : (length c08_scan_sites = 42)%nat /\ Nat.leb 40 (length c08_readfrom_sites) = true /\
   sd_ok (DSeq [DF TVarInt; DPanic String.EmptyString]) = false /\ sd_ok (DAry (DSeq [])) = false /\
   sd_ok (DAry (DSeq [DF TVarInt; DChoice 1 (DRaw 256) (DSeq [])])) = true.
 Proof. repeat split; vm_compute; reflexivity. Qed.
@@ -477,3 +477,69 @@ Print Assumptions C08_sites_recorded.
 Print Assumptions C08_descriptor_total.
 Print Assumptions C08_scan_sites_total.
 Print Assumptions C08_readfrom_sites_total.
+
+(* ================================================================ phase 6: nothing foreign left *)
+From GoMC Require Import Model.C08_ext Proofs.C08_ext Proofs.C08_effects Proofs.C08_regrt.
+
+(* the foreign decoders of the site descriptors, given by the owners' models, meet the hypotheses of
+   C08_descriptor_total: pk.NBT through C03's TRANSLATED decoder (into interface{}, any scalar / slice
+   type, or - model dec_st - any struct shape and prior value; ErrEND tolerated), level.Chunk through
+   the instantiated chunk skeleton, FixedBitSet through C06's reader, chat.Message through C03's translated
+   reader composed with C17's conversion of_tag_into, chat.JsonMessage through pk.String, encoding/json
+   (ANY function json_parse: total by the library's contract) and C17's of_json_into *)
+Theorem C08_foreign_decoders_ok : forall tgt cs cb nsec bits json_parse,
+  (forall i, Proofs.C12.wfcfg (Model.C12.ccfg (cs i))) -> (forall i, Proofs.C12.wfcfg (Model.C12.ccfg (cb i))) ->
+  N.of_nat nsec < 2^58 -> forall fuel, ext_ok (ext_inst tgt cs cb nsec bits json_parse fuel) fuel.
+Proof. intros. apply ext_inst_ok; assumption. Qed.
+
+(* EVERY Scan site and EVERY listed ReadFrom method (bot/playerlist's hand-written handlers included), with
+   no hypothesis on any sub-decoder: a value or an error, no input given back, on every byte string, for
+   every NBT destination, every destination chunk, every behaviour of encoding/json and every
+   data-dependent choice *)
+Theorem C08_scan_sites_total_closed : forall tgt cs cb nsec bits json_parse,
+  (forall i, Proofs.C12.wfcfg (Model.C12.ccfg (cs i))) -> (forall i, Proofs.C12.wfcfg (Model.C12.ccfg (cb i))) ->
+  N.of_nat nsec < 2^58 ->
+  forall oracle fuel r, In r c08_scan_sites -> forall s, (length s < fuel)%nat ->
+  prog0 s (run_flat (sdr (ext_inst tgt cs cb nsec bits json_parse fuel) oracle fuel (r_desc r)) s).
+Proof. intros tgt cs cb nsec bits jp Ws Wb Hn oracle fuel. exact (scan_sites_total_closed tgt cs cb nsec bits jp Ws Wb Hn oracle fuel). Qed.
+Theorem C08_readfrom_sites_total_closed : forall tgt cs cb nsec bits json_parse,
+  (forall i, Proofs.C12.wfcfg (Model.C12.ccfg (cs i))) -> (forall i, Proofs.C12.wfcfg (Model.C12.ccfg (cb i))) ->
+  N.of_nat nsec < 2^58 ->
+  forall oracle fuel r, In r c08_readfrom_sites -> forall s, (length s < fuel)%nat ->
+  prog0 s (run_flat (sdr (ext_inst tgt cs cb nsec bits json_parse fuel) oracle fuel (r_desc r)) s).
+Proof. intros tgt cs cb nsec bits jp Ws Wb Hn oracle fuel. exact (readfrom_sites_total_closed tgt cs cb nsec bits jp Ws Wb Hn oracle fuel). Qed.
+
+(* the read effects of the decoder interpretations ARE the translated readers of net/packet
+   (Gen/C05gen.v VarInt.ReadFrom, Gen/C06gen.v String.ReadFrom = Identifier, Boolean.ReadFrom) *)
+Theorem C08_read_effects_translated :
+  (forall S br (set : S -> Z -> S) σ k s,
+     run_flat (eff_varint set σ k) s =
+     match run_flat (Gen.C05gen.packet_VarInt_ReadFrom_io br) s with
+     | FOk (z, _) r => run_flat (k (set σ z)) r | FErr e => FErr e | FPanic w => FPanic w | FFuel => FFuel end) /\
+  (forall S br (set : S -> list N -> S) σ k s, all_bytes s ->
+     run_flat (eff_string set σ k) s =
+     match run_flat (Gen.C06gen.packet_String_ReadFrom_io (Gen.C05gen.packet_VarInt_ReadFrom_io br)) s with
+     | FOk (bs, _) r => run_flat (k (set σ (map Z.to_N bs))) r | FErr e => FErr e | FPanic w => FPanic w | FFuel => FFuel end) /\
+  (forall S (set : S -> bool -> S) σ (k : S -> dec unit) s, all_bytes s ->
+     run_flat (eff_bool set σ k) s =
+     match run_flat Gen.C06gen.packet_Boolean_ReadFrom_io s with
+     | FOk (v, _) r => run_flat (k (set σ v)) r | FErr e => FErr e | FPanic w => FPanic w | FFuel => FFuel end).
+Proof.
+  split; [|split]; intros.
+  - apply eff_varint_translated.
+  - apply eff_string_translated; assumption.
+  - apply eff_bool_translated; assumption.
+Qed.
+
+(* Registry.WriteTo then Registry.ReadFrom over the interpretation of the translated ReadFrom: the image
+   (C19's reg_write) is consumed exactly and what follows is left untouched *)
+Theorem C08_registry_roundtrip_translated : forall ne, (forall i, robust (ne i)) ->
+  forall es rest F, lenN es < 2^31 -> fits ne 0 es -> (length (Model.C19.reg_write es ++ rest) < F)%nat ->
+  run_flat (registry_interp ne F) (Model.C19.reg_write es ++ rest) = FOk tt rest.
+Proof. exact registry_roundtrip_interp. Qed.
+
+Print Assumptions C08_foreign_decoders_ok.
+Print Assumptions C08_scan_sites_total_closed.
+Print Assumptions C08_readfrom_sites_total_closed.
+Print Assumptions C08_read_effects_translated.
+Print Assumptions C08_registry_roundtrip_translated.
